@@ -67,6 +67,33 @@ def canon(h):
     return "x" + b"\n".join(raw.split(b"\n")[:-1]).hex()
 
 
+def rate_monitor(ctx, loop_segs, anims, start, replay):
+    """on the real firmware trace: an animation that owns its row steps (prints to that row) no more often than every speed_ms,
+    measured as the counter difference modulo 2^64"""
+    rows_used = [a[1] for a in anims]
+    times = {i: [] for i, a in enumerate(anims) if rows_used.count(a[1]) == 1 and a[3] > 0}
+    for k, seg in enumerate(loop_segs):
+        body = seg[seg.index(f"== loop {k}") + 1:] if f"== loop {k}" in seg else seg
+        head = body[: next((i for i, l in enumerate(body) if l.startswith("delay")), len(body))]
+        now = None
+        for l in head:
+            w = l.split(" ")
+            if w[0] == "millis":
+                if int(w[1]) == 0:
+                    return          # stamp 0 means "no step yet" to the helpers: the clock is not running in the property's sense
+                now = (int(w[1]) - start) % 2 ** 64
+            elif w[0] == "lcd.print" and now is not None:
+                for i in times:
+                    if int(w[3]) == anims[i][1] and (not times[i] or times[i][-1] != now):
+                        times[i].append(now)
+    for i, ts in times.items():
+        sp = anims[i][3]
+        for a, b in zip(ts, ts[1:]):
+            if (b - a) % 2 ** 64 < sp:
+                ctx.fail("anim:steps-too-close", f"{anims[i][0]} on row {anims[i][1]} stepped {(b - a) % 2 ** 64} ms after its previous step (speed_ms={sp})", replay)
+                return
+
+
 def run(ctx: Ctx) -> int:
     ctx.prove(["Reduino.Props.C18"])
     common.fresh_import()
@@ -80,17 +107,25 @@ def run(ctx: Ctx) -> int:
         need = max(bound(s, len(t), cols, "fw") for s, _, t, _, _ in anims)
         passes = min(need + 6, 70)
         drifts = [rng.choice([0, 0, 1, 7, 40, 120]) for _ in range(passes * len(anims))]
-        cases.append((cols, rows, anims, sleep_ms, passes, drifts))
+        # a quarter of the runs start just before the millisecond counter wraps (64-bit on the host: same arithmetic, other modulus)
+        start = (2 ** 64 - rng.choice([3, 40, 99, 101, 400, 1500])) if rng.random() < 0.25 else 0
+        cases.append((cols, rows, anims, sleep_ms, passes, drifts, start))
+    # pinned: every style, alone on its display, run across the wrap of the millisecond counter with early and late ticks
+    for style in STYLES:
+        for off, sp in ((50, 100), (400, 1000), (1500, 200)):
+            cases.append((8, 2, [(style, 0, "hello", sp, True)], 30, 40, [rng.choice([0, 7, 40, 120]) for _ in range(40)], 2 ** 64 - off))
     # ---------- firmware side ---------------------------------------------------------------------------------
     import cxx
+    STARTS = [c[6] for c in cases]
+    cases = [c[:6] for c in cases]
     srcs = [fw_script(c, r, a, s) for c, r, a, s, p, d in cases]
     outs = [cxx.transpile(s) for s in srcs]
-    jobs = [(cpp, cases[i][4], "t " + " ".join(map(str, cases[i][5]))) for i, (cpp, e) in enumerate(outs) if cpp is not None]
+    jobs = [(cpp, cases[i][4], "t " + " ".join(map(str, cases[i][5])) + (f"\nT {STARTS[i]}" if STARTS[i] else "")) for i, (cpp, e) in enumerate(outs) if cpp is not None]
     res_iter = iter(cxx.run_many(ctx, jobs))
     results = [next(res_iter) if cpp is not None else None for cpp, e in outs]
     fw_model = ctx.lean.drive([f"lcdanim|fw|{c} {r}|{' '.join(map(str, d))}|{s}|{p}|{spec(a)}" for c, r, a, s, p, d in cases])
-    for (cols, rows, anims, sleep_ms, passes, drifts), src, (cpp, exc), res, m in zip(cases, srcs, outs, results, fw_model):
-        replay = {"script": src, "drifts": drifts, "passes": passes}
+    for (cols, rows, anims, sleep_ms, passes, drifts), src, (cpp, exc), res, m, start in zip(cases, srcs, outs, results, fw_model, STARTS):
+        replay = {"script": src, "drifts": drifts, "passes": passes, "clock_start": start}
         for a in anims:
             ctx.count("style:" + a[0] + (":loop" if a[4] else ""))
         if cpp is None:
@@ -108,6 +143,11 @@ def run(ctx: Ctx) -> int:
             cells = [l for l in seg if l.startswith("lcd.cells ")]
             impl_grids.append(canon(cells[-1].split(" ")[3]) if cells else "none")
         model_grids = [x.split(" ")[0] for x in mp]
+        if start:
+            ctx.count("run-across-counter-wrap")
+            rate_monitor(ctx, segs[1:], anims, start, replay)
+            continue          # the model's clock is a Nat starting at 0: these runs keep the trace monitors only
+        rate_monitor(ctx, segs[1:], anims, 0, replay)
         if impl_grids != model_grids[: len(impl_grids)] or len(impl_grids) != len(model_grids):
             k = next((i for i, (a, b) in enumerate(zip(impl_grids, model_grids)) if a != b), min(len(impl_grids), len(model_grids)))
             ctx.tie_diff("tie S_c anim (Lcd.Fw animation model vs compiled templates, cells after each pass)",
@@ -161,6 +201,10 @@ def run(ctx: Ctx) -> int:
             t += rng.choice([1, 10, 50, 99, 100, 101, 200, 350, 1000])
             times.append(t)
         hcases.append((cols, rows, anims, times))
+    # pinned: the degenerate forms (empty text, text as wide as the row or wider), looping, with ticks closer together than speed_ms
+    for style, text in (("bounce", ""), ("bounce", "abcdefgh"), ("bounce", "abcdefghijk"), ("typewriter", ""), ("scroll", ""), ("blink", "")):
+        for lp in (True, False):
+            hcases.append((8, 2, [(style, 1, text, 100, lp)], [10, 20, 30, 150, 160, 170, 300, 301, 420]))
     hmodel = ctx.lean.drive([f"lcdanim|host|{c} {r}|{' '.join(map(str, ts))}|{spec(a)}" for c, r, a, ts in hcases])
     for (cols, rows, anims, times), m in zip(hcases, hmodel):
         replay = {"cols": cols, "rows": rows, "anims": anims, "times": times}
@@ -169,11 +213,16 @@ def run(ctx: Ctx) -> int:
             for s, r, t, sp, lp in anims:
                 lcd.animate(s, r, t, speed_ms=sp, loop=lp)
             states = list(lcd.animations.values())
+            drawn = []
+            real_line = lcd.line
+            lcd.line = lambda row, *a, **k: (drawn.append(row), real_line(row, *a, **k))[1]
+            own_row = [[x[1] for x in anims].count(a[1]) == 1 for a in anims]
             out = ["x" + lcd.dump().encode().hex() + " a=" + "".join("1" if st.active else "0" for st in states) + " t="]
             steps = [0] * len(anims)
             last = [None] * len(anims)
             for now in times:
                 before = [(st.last_tick, st.active, st.offset, st.visible, st.show, st.cycles) for st in states]
+                del drawn[:]
                 lcd.tick(now)
                 flags = ""
                 for i, st in enumerate(states):
@@ -182,6 +231,7 @@ def run(ctx: Ctx) -> int:
                     flags += "s" if stepped else "-"
                     if stepped:
                         steps[i] += 1
+                    if stepped or (own_row[i] and before[i][1] and anims[i][1] in drawn):      # a state change or a redraw of its row
                         if last[i] is not None and anims[i][3] > 0 and now - last[i] < anims[i][3]:
                             ctx.fail("anim:host-rate-limit", f"host {anims[i][0]} stepped at {last[i]} and {now} (speed {anims[i][3]})", replay)
                         last[i] = now
